@@ -328,7 +328,7 @@ Section Components.
              (uncached_lookupAll W [c_adapters st] (map fst os) p).
 
   (* subscribers(objects, provided): (results that are not None, factories called in order) *)
-  Definition subscribers (st : cstate) (os : list cobj) (p : spec) : list nat * list value :=
+  Definition subscribersOf (st : cstate) (os : list cobj) (p : spec) : list nat * list value :=
     let subs := uncached_subscriptions W [c_adapters st] (map fst os) (Some p) in
     (flat_map (fun s => match call s (map snd os) with Some r => [r] | None => [] end) subs, subs).
 
